@@ -282,6 +282,7 @@ func runE1Case(r *verifkit.Run, pf e1Profile, id string, rng *rand.Rand) map[str
 	}
 
 	cs.counter["commit_events_judged"] += int64(mo.judgedCommits)
+	cs.counter["quorums_shown_to_state_machine_judged"] += int64(mo.judgedShownQuorums)
 	cs.counter["signatures_reverified"] += int64(mo.sigsVerified)
 	cs.counter["summaries_judged"] += int64(mo.summariesJudged)
 	cs.counter["summaries_multi_target"] += int64(mo.multiTarget)
